@@ -16,3 +16,11 @@ Definition run_weak_pinned (noisy : bool) (p : wparams) : wparams * nat * nat :=
 Lemma C12_counts_pinned_refuted : exists p, shots p = 5 /\
   snd (run_weak_pinned false (fst (fst (run_weak_pinned true p)))) = 9.
 Proof. exists {| shots := 5; meas := repeat None 5 |}. vm_compute. split; reflexivity. Qed.
+
+(* the weak front-end before fix 2 of C20: shots was rewritten to 1 BEFORE the get_state assertion rejected the call *)
+Definition attempt_weak_pinned (noisy get_state : bool) (p : wparams) : wparams * option (nat * nat) :=
+  if noisy && get_state then ({| shots := 1; meas := repeat None (shots p) |}, None)
+  else let r := run_weak noisy p in (fst (fst r), Some (snd (fst r), snd r)).
+Lemma C20_refused_weak_run_pinned_refuted : exists p, shots p = 20 /\
+  snd (run_weak true (fst (attempt_weak_pinned true true p))) = 1.
+Proof. exists {| shots := 20; meas := repeat None 20 |}. vm_compute. split; reflexivity. Qed.
